@@ -100,6 +100,13 @@ static c11::Proj oracle(const Cfg& c) {
 // projected distance from the origin; safety factor 4)
 static double tol_plane(const Cfg& c, double R, double k) { return 4 * (10e-9 * (c.a / 6378137.0) * std::fmax(1.0, k) + 1e-14 * R); }
 static double tol_ground(const Cfg& c, double R, double k) { double kk = std::fmax(k, 1 / k); if (!(kk < 1e300)) kk = 1; return 4 * (10e-9 * (c.a / 6378137.0) + 1e-14 * R * kk); }
+// The documented error of the latitude of origin for two distinct parallels (4.5e-14 degrees) is for terrestrial
+// flattening; the careful evaluation of 1 - n in Init cancels terms of order e^2, so it is scaled by e^2/e^2(WGS84)
+// up to |f| = 1/120 and by a flat factor 1000 (sub-micrometre -> sub-millimetre) for the strongly non-spherical test
+// ellipsoids f = +-0.1, for which the library documents no figure.  It displaces the whole map along the central meridian.
+static double gflat(const Cfg& c) { double r = std::fabs(c.f * (2 - c.f)) / 0.0066943799901413165; return r <= 2.5 ? std::fmax(1.0, r) : 1000.0; }   // |f| <= 1/120: proportional; beyond (the f = +-0.1 strata): three orders of magnitude
+static bool distinct_parallels(const Cfg& c) { return c.cls != 0 && !(c.kind == 1 || (c.kind == 2 && c.p[0] == c.p[1]) || (c.kind == 3 && c.p[0] == c.p[2] && c.p[1] == c.p[3])); }
+static double origin_slack(const Cfg& c) { return distinct_parallels(c) ? 4 * 4.5e-14 * Math::degree() * c.a * gflat(c) : 0.0; }
 static std::string num(double x) { char b[40]; std::snprintf(b, sizeof b, "%.17g", x); return b; }
 
 static LD Mrad(const Cfg& c, double lat) { LD e2 = (LD)c.f * (2 - (LD)c.f), s = sinl((LD)lat * M_PIl / 180), w = 1 - e2 * s * s; return (LD)c.a * (1 - e2) / (w * sqrtl(w)); }
@@ -127,12 +134,15 @@ static Reg r_pt("pt", [](const Args& a) {
   if (!(std::fabs(lat) <= 90 && std::isfinite(lon) && std::isfinite(lon0) && std::fabs(lon) < 1e6 && std::fabs(lon0) < 1e6)) return;
   c11::Proj P = oracle(c); c11::Out w = P.fwd(np, lon0, lat, lon);
   double R = std::hypot(x, y);
+  // every point of the sphere has an image (finite or, at a pole that projects to infinity, large): never NaN
+  if ((std::isnan(x) || std::isnan(y)) && !(c.cls == 0 && lat * (np ? 1 : -1) == -90)) {
+    bad("forward-nan", "Forward(" + num(lat) + ", " + num(lon) + ") = (" + num(x) + ", " + num(y) + "), k = " + num(k) + "; closed form (" + c11::qstr(w.x) + ", " + c11::qstr(w.y) + ")"); return; }
   bool edge; Q d = c11::dlon(lon0, lon, edge); (void)d;
   // 1. textbook closed form
   if (w.ok && c11::fin(w.x) && c11::fin(w.y) && fabsq(w.x) < Q(1e30) && fabsq(w.y) < Q(1e30)) {
     double ox = c11::dbl(w.x), oy = c11::dbl(w.y), oR = std::hypot(ox, oy), ok_ = c11::dbl(w.k);
     if (documented_domain(c)) {
-      double tol = tol_plane(c, oR, w.kok ? ok_ : k);   // "true distance": at a pole of a non-polar cone the scale is infinite
+      double tol = tol_plane(c, oR, w.kok ? ok_ : k) + origin_slack(c) * std::fmax(1.0, std::fmin(k, 1e300));   // "true distance": at a pole of a non-polar cone the scale is infinite
       double dx = (c.cls != 0 && edge) ? c11::dbl(fabsq(Q(x)) - fabsq(w.x)) : c11::dbl(Q(x) - w.x), dy = c11::dbl(Q(y) - w.y);
       if (!(std::fabs(dx) <= tol && std::fabs(dy) <= tol))
         bad("closed-form-xy", "Forward = (" + num(x) + ", " + num(y) + ") but Snyder's closed form gives (" + c11::qstr(w.x) + ", " + c11::qstr(w.y) + "); |d| = " + num(std::hypot(dx, dy)) + " m, tolerance " + num(tol));
@@ -165,7 +175,7 @@ static Reg r_pt("pt", [](const Args& a) {
   }
   // 3. Forward(Reverse) = identity in the plane, on a displaced point of the image
   if (std::fabs(lat) < 89.9 && R < 100 * c.a && (c.cls == 0 || (std::fabs(g) < 150 && std::fabs(c11::dbl(d)) < 150))) {
-    double x2 = x + 1234.5, y2 = y - 777.25, la, lo, gg, kk; o.Rev(np, lon0, x2, y2, la, lo, gg, kk);
+    double x2 = x + 1234.5 * (c.a / 6378137.0), y2 = y - 777.25 * (c.a / 6378137.0), la, lo, gg, kk; o.Rev(np, lon0, x2, y2, la, lo, gg, kk);
     if (std::fabs(la) < 89.99 && std::isfinite(kk)) {
       double x3, y3, g3, k3; o.Fwd(np, lon0, la, lo, x3, y3, g3, k3);
       double dist = std::hypot(x3 - x2, y3 - y2), tol = tol_plane(c, std::hypot(x2, y2), std::fmax(kk, 1 / kk));
@@ -211,8 +221,9 @@ static Reg r_cfg("cfgprops", [](const Args& a) {
     for (int i = 0; i < 3; ++i) {
       double x, y, g, k, x2, y2, g2, k2; p.Fwd(true, 3, tl[i], lon, x, y, g, k); q.Fwd(true, 3, tl[i], lon, x2, y2, g2, k2);
       if (!(std::isfinite(x) && std::isfinite(y))) continue;
-      double dd = std::hypot(x - x2, y - y2), tol = 2 * tol_plane(c, std::hypot(x, y), k) + extra * (std::hypot(x, y) + c.a);
-      if (!(dd <= tol && std::fabs(k - k2) <= (1e-12 + extra) * k)) { bad(rel, what + ": at lat " + num(tl[i]) + " positions differ by " + num(dd) + " m (tolerance " + num(tol) + "), k " + num(k) + " vs " + num(k2)); return; }
+      double dd = std::hypot(x - x2, y - y2), tol = 2 * tol_plane(c, std::hypot(x, y), k) + extra * (std::hypot(x, y) + c.a) + 2 * origin_slack(c) * std::fmax(1.0, k);
+      bool kcmp = std::fabs(tl[i]) < 90;   // at a pole of a non-azimuthal cone the scale is infinite (the returned value is arbitrary)
+      if (!(dd <= tol && (!kcmp || std::fabs(k - k2) <= (1e-12 + extra) * std::fabs(k)))) { bad(rel, what + ": at lat " + num(tl[i]) + " positions differ by " + num(dd) + " m (tolerance " + num(tol) + "), k " + num(k) + " vs " + num(k2)); return; }
     }
   };
   // prescribed scale: on the standard parallels (no SetScale) or at the SetScale latitude
@@ -240,7 +251,7 @@ static Reg r_cfg("cfgprops", [](const Args& a) {
     if (l1 == l2 && c.kind != 3 && !(std::fabs(lat0 - l1) <= 4 * ulp(90.0))) bad("origin-latitude", "one standard parallel " + num(l1) + " but OriginLatitude " + num(lat0));
     if (documented_domain(c)) {
       double ol = c11::dbl(atan2q(P.p0.s, P.p0.c) * 180 / c11::PIq);
-      if (!P.polar && !(std::fabs(lat0 - ol) <= 4 * 4.5e-14 + 4 * ulp(lat0))) bad("origin-latitude", "OriginLatitude " + num(lat0) + " vs latitude of minimum scale " + num(ol));
+      if (!P.polar && !(std::fabs(lat0 - ol) <= 4 * 4.5e-14 * gflat(c) + 4 * ulp(lat0))) bad("origin-latitude", "OriginLatitude " + num(lat0) + " vs latitude of minimum scale " + num(ol));
       if (std::fabs(lat0) < 90) {
         double x, y, g, k; o.Fwd(true, 7, lat0, 7, x, y, g, k);
         if (!(std::hypot(x, y) <= tol_plane(c, 0, k))) bad("origin-maps-to-zero", "Forward(lat0) = (" + num(x) + ", " + num(y) + ")");
@@ -281,8 +292,8 @@ static Reg r_cfg("cfgprops", [](const Args& a) {
     else for (int i = 0; i < 3; ++i) {
       double x, y, g, k, x2, y2, g2, k2; o.Fwd(true, 0, tl[i], lon, x, y, g, k); om.Fwd(true, 0, -tl[i], lon, x2, y2, g2, k2);
       if (!(std::isfinite(x) && std::isfinite(y)) || !documented_domain(c)) continue;
-      double dd = std::hypot(x - x2, y + y2), tol = 2 * tol_plane(c, std::hypot(x, y), k);
-      if (!(dd <= tol && std::fabs(g + g2) <= 1e-12 * std::fmax(1.0, std::fabs(g)) && std::fabs(k - k2) <= 1e-12 * k)) { bad("mirror", "Forward(-cone)(-lat) is not the mirror image of Forward(cone)(lat) at lat " + num(tl[i]) + ": off by " + num(dd) + " m"); break; }
+      double dd = std::hypot(x - x2, y + y2), tol = 2 * tol_plane(c, std::hypot(x, y), k) + 2 * origin_slack(c) * std::fmax(1.0, k);
+      if (!(dd <= tol && std::fabs(g + g2) <= 1e-12 * std::fmax(1.0, std::fabs(g)) && (std::fabs(tl[i]) == 90 || std::fabs(k - k2) <= 1e-12 * std::fabs(k)))) { bad("mirror", "Forward(-cone)(-lat) is not the mirror image of Forward(cone)(lat) at lat " + num(tl[i]) + ": off by " + num(dd) + " m"); break; }
       double la, lo, gg, kk; om.Rev(true, 0, x, -y, la, lo, gg, kk); double la1, lo1, gg1, kk1; o.Rev(true, 0, x, y, la1, lo1, gg1, kk1);
       if (std::fabs(tl[i]) < 89.9 && !(std::fabs(la + la1) <= 1e-9)) { bad("mirror", "Reverse(-cone)(x, -y) latitude " + num(la) + " vs " + num(la1)); break; }
     }
@@ -460,7 +471,7 @@ static std::string pickcfg(Rng& r, Cfg& c) {
 
 void gv::generate(const std::string& tier, uint64_t seed) {
   Rng r(seed * 2654435761ULL + 11);
-  long ncfg = tier == "thorough" ? 2500 : 260;
+  long ncfg = tier == "thorough" ? 40000 : 2500;
   auto A = [](std::initializer_list<Args> l) { Args out; for (auto& v : l) out.insert(out.end(), v.begin(), v.end()); return out; };
   // fixed anchors: the library's own static instances and documented examples
   {
